@@ -132,16 +132,19 @@ def evaluate_on_grid(
     return out
 
 
-@njit(parallel=True)
+@njit
 def hist2d(x, y, values, xmin, xmax, nx, ymin, ymax, ny):
     out = np.zeros(shape=(values.shape[0], ny, nx), dtype=np.float64)
     counts = np.zeros(shape=(ny, nx), dtype=np.int64)
     dx = (xmax - xmin) / nx
     dy = (ymax - ymin) / ny
 
-    for i in prange(len(x)):
-        indx = int((x[i] - xmin) / dx)
-        indy = int((y[i] - ymin) / dy)
+    # The accumulation below is a read-modify-write on shared bins: it must not
+    # run in a parallel loop (updates from different threads would be lost).
+    for i in range(len(x)):
+        # floor, not truncation: points just below the lower limit are out of range
+        indx = int(np.floor((x[i] - xmin) / dx))
+        indy = int(np.floor((y[i] - ymin) / dy))
         if (indx >= 0) and (indx < nx) and (indy >= 0) and (indy < ny):
             out[:, indy, indx] += values[:, i]
             counts[indy, indx] += 1
